@@ -47,6 +47,9 @@ class State:
         self.discarded = z3.IntVal(0)  # jobs destroyed (dropped deques, cleared batches)
         self.next_id = itertools.count(1)
         self.steps = 0
+        self.frames = []  # suspended callers: (body_name, locals, dst_place, ret_bb)
+        self.body_name = None
+        self.handles = {}
 
     def clone(self):
         s = State.__new__(State)
@@ -58,6 +61,9 @@ class State:
         s.discarded = self.discarded
         s.next_id = self.next_id  # shared counter is fine: ids stay unique
         s.steps = self.steps
+        s.frames = [(b, dict(l), d, r) for (b, l, d, r) in self.frames]
+        s.body_name = self.body_name
+        s.handles = dict(self.handles)
         return s
 
     def alloc(self, v):
@@ -253,16 +259,19 @@ class Executor:
     def run(self, body: Body, st: State, bb=0, visits=None):
         """DFS over paths from block `bb`; returns a list of Outcomes."""
         out = []
+        st.body_name = self.short(body)
         stack = [(st, bb, visits or {})]
         while stack:
             st, bb, visits = stack.pop()
+            body = self.bodies[st.body_name]
             while True:
                 st.steps += 1
                 if st.steps > 4000:
                     raise Unsupported(f"step budget exceeded in {body.name}")
                 visits = dict(visits)
-                visits[bb] = visits.get(bb, 0) + 1
-                if visits[bb] > self.loop_bound:
+                vk = (st.body_name, len(st.frames), bb)
+                visits[vk] = visits.get(vk, 0) + 1
+                if visits[vk] > self.loop_bound:
                     raise Unsupported(f"loop bound {self.loop_bound} exceeded at bb{bb} of {body.name} (raise the bound or tighten the state domain)")
                 blk = body.blocks[bb]
                 for a in blk.stmts:
@@ -273,6 +282,16 @@ class Executor:
                     continue
                 if t.kind == "return":
                     rv = st.heap.get(st.locals.get(0, -1), UNIT)
+                    if st.frames:
+                        # return into the suspended caller (a helper of the same module)
+                        cname, clocals, dst, ret_bb = st.frames.pop()
+                        st.locals = clocals
+                        st.body_name = cname
+                        body = self.bodies[cname]
+                        if dst is not None:
+                            self.write(st, dst, rv)
+                        bb = ret_bb
+                        continue
                     out.append(Outcome("return", st, ret=rv))
                     break
                 if t.kind == "unreachable":
@@ -349,6 +368,18 @@ class Executor:
                     res = self.call(st, body, t)
                     out.extend(self.extra)
                     self.extra = []
+                    if isinstance(res, tuple) and res and res[0] == "enter":
+                        # interprocedural step into another body of the module
+                        _, callee, args = res
+                        st.frames.append((st.body_name, st.locals, t.args["dst"], t.args["targets"].get("return")))
+                        cb = self.bodies[callee]
+                        st.locals = {}
+                        for pno, av in zip(cb.params, args):
+                            st.locals[pno] = st.alloc(av)
+                        st.body_name = callee
+                        body = cb
+                        bb = 0
+                        continue
                     if isinstance(res, Outcome):
                         out.append(res)
                         break
@@ -384,11 +415,20 @@ class Executor:
             return None
         raise Unsupported(f"drop of {v[0]} in {body.name}: {t.text}")
 
+    @staticmethod
+    def short(body):
+        return body.name.split(">::")[-1]
+
     # ---- library models -----------------------------------------------------------------------
     def call(self, st, body, t):
         f = t.args["func"]
         args = [self.read(st, a) for a in t.args["args"]]
         ret_bb = t.args["targets"].get("return")
+        m = re.search(r"JobBroker::<[^()]*>::(\w+)$", f) or re.search(r"^job_market::.*>::(\w+)$", f)
+        if m and m.group(1) in self.bodies and m.group(1) not in ("new", "clone", "drop"):
+            if len(st.frames) > 4:
+                raise Unsupported("call depth > 4 inside job_market")
+            return ("enter", m.group(1), args)
 
         def deref(v):
             if v[0] in ("ref", "arc", "box"):
@@ -418,15 +458,52 @@ class Executor:
             if not st.lock_held:
                 raise Unsupported("wait without the lock")
             st.events.append(("wait",))
-            return Outcome("wait", st, resume=ret_bb)
+            return Outcome("wait", st, resume=ret_bb, resume_body=st.body_name)
         if re.fullmatch(r"(std::thread::)?sleep", f):
             st.events.append(("sleep", bool(st.lock_held)))
-            return Outcome("sleep", st, resume=ret_bb, lock_held=bool(st.lock_held))
+            return Outcome("sleep", st, resume=ret_bb, resume_body=st.body_name, lock_held=bool(st.lock_held))
         if re.match(r"^std::mem::drop::<", f):
             r = self.drop_value(st, args[0], body, t)
             if r is not None:
                 return Outcome(r, st, resume=ret_bb)
             return UNIT
+        def ival(v):
+            if v[0] == "int":
+                return v[1]
+            if v[0] in ("ref",):
+                w = st.heap[v[1]]
+                if w[0] == "int":
+                    return w[1]
+            raise Unsupported(f"integer expected in call {f}, got {v[0]}")
+
+        if re.fullmatch(r"<usize as Ord>::min|core::cmp::Ord::min|std::cmp::Ord::min|core::num::<impl usize>::min", f):
+            a, b = ival(args[0]), ival(args[1])
+            return I(z3.If(a <= b, a, b))
+        if re.fullmatch(r"<usize as Ord>::max|core::cmp::Ord::max|std::cmp::Ord::max|core::num::<impl usize>::max", f):
+            a, b = ival(args[0]), ival(args[1])
+            return I(z3.If(a >= b, a, b))
+        mm = re.fullmatch(r"<usize as PartialOrd>::(lt|le|gt|ge)|<usize as PartialEq>::(eq|ne)", f)
+        if mm:
+            a, b = ival(args[0]), ival(args[1])
+            op = mm.group(1) or mm.group(2)
+            return B({"lt": a < b, "le": a <= b, "gt": a > b, "ge": a >= b, "eq": a == b, "ne": a != b}[op])
+        if f.endswith("<impl usize>::checked_sub"):
+            a, b = ival(args[0]), ival(args[1])
+            return ("opt", a >= b, st.alloc(I(a - b)))
+        if f.endswith("<impl usize>::checked_add"):
+            a, b = ival(args[0]), ival(args[1])
+            return ("opt", a + b <= USIZE_MAX, st.alloc(I(a + b)))
+        if f.endswith("<impl usize>::wrapping_sub"):
+            return I((ival(args[0]) - ival(args[1])) % (USIZE_MAX + 1))
+        if f.endswith("<impl usize>::wrapping_add"):
+            return I((ival(args[0]) + ival(args[1])) % (USIZE_MAX + 1))
+        if f.endswith("<impl usize>::saturating_add"):
+            r = ival(args[0]) + ival(args[1])
+            return I(z3.If(r > USIZE_MAX, USIZE_MAX, r))
+        if re.search(r"Option::<.*>::is_some$", f):
+            return B(st.heap[deref(args[0])][1])
+        if re.search(r"Option::<.*>::is_none$", f):
+            return B(z3.Not(st.heap[deref(args[0])][1]))
         if f.endswith("saturating_sub"):
             a, b = args[0][1], args[1][1]
             return I(z3.If(a >= b, a - b, 0))
